@@ -147,13 +147,16 @@ def stepAll (p : Bool) (c : Cfg) : Zone → List Rec → Zone
 /-! ### the zone invariants of property C12 -/
 
 structure Inv (c : Cfg) (z : Zone) : Prop where
-  /-- exactly one SOA at the apex -/
+  /-- exactly one SOA: one at the apex … -/
   apexSoa : ∃ r s rest, rrsetOf z (c.origin, T_SOA) = [r] ∧ r.rdata = .soa s rest
+  /-- … and none anywhere else -/
+  noOtherSoa : ∀ name, name ≠ c.origin → rrsetOf z (name, T_SOA) = []
   /-- at least one NS at the apex -/
   apexNs : rrsetOf z (c.origin, T_NS) ≠ []
-  /-- no name holds a CNAME together with other data (NSEC/NSEC3 may accompany a CNAME, RFC 4034) -/
+  /-- no name holds a CNAME together with other data, whatever its type
+  (only NSEC/NSEC3 may accompany a CNAME, RFC 4034 §4 / RFC 5155) -/
   cnameAlone : ∀ name t, rrsetOf z (name, T_CNAME) ≠ [] → t ≠ T_CNAME → t ≠ T_NSEC → t ≠ T_NSEC3 →
-    t < 65535 → rrsetOf z (name, t) = []
+    rrsetOf z (name, t) = []
   /-- `BTreeMap`: one entry per key -/
   nodup : (z.map (·.1)).Nodup
 
